@@ -8,11 +8,12 @@ from pbt import build, gens
 from pbt.common import build_input
 from pbt.runner import Outcome
 from pbt.sut import Bar, Composition, Sequence, Tokeniser
+import scoda.misc.util as util
 
 ID = "C11"
 MIN_NONTRIVIAL = 0.3
 RULE = ("Hypothesis: 1-3 integer-tick well-formed sequences of unequal length pushed through pipelines of <= 6 stages drawn from "
-        "quantise, quantise_note_lengths, quantise_and_normalise, normalise, pad, cutoff, transpose, scale(k), set_channel, "
+        "quantise, quantise_note_lengths (grids given explicitly or built by the library's duration helpers from integer arguments), quantise_and_normalise, normalise, pad, cutoff, transpose, scale(k), set_channel, "
         "split, merge, concatenate, Bar(...) (sequences shorter than the capacity => padding), sequences_split_bars (either "
         "re-quantisation setting), Composition.from_sequences -> to_sequences, tokenise (whole and bar-wise with a threaded "
         "state) -> detokenise, all with integer arguments. Oracle after every stage: for every Sequence reachable from the "
@@ -89,6 +90,14 @@ def _scan(out, seq, where):
     return True
 
 
+def _grid_ok(out, values, where):
+    for v in values:
+        if not _int_ok(v) or v is None:
+            out.fail(f"non-integer-grid-value:{where.split('#')[0]}", f"{where}: a duration helper called with integer arguments returned {values!r}")
+            return False
+    return True
+
+
 def _tokens_ok(out, tokens, where):
     for t in tokens:
         if not isinstance(t, str) or not TOKEN_RE.match(t):
@@ -118,9 +127,20 @@ def check(case):
         tokens = None
         try:
             if name == "quantise":
-                s.quantise([[24, 12], [4], [6, 4], [a], [16, 8, 6]][r % 5])
+                # explicit integer lists, or the grids the library's own helpers build from integer arguments (the way
+                # the docstrings of quantise / quantise_note_lengths tell the user to obtain them)
+                steps = [[24, 12], [4], [6, 4], [a], [16, 8, 6], util.get_default_step_sizes(a % 3, b % 3),
+                         util.get_note_durations(2 ** (a % 3), 2 ** (b % 4))][r % 7]
+                if not _grid_ok(out, steps, where):
+                    return out
+                s.quantise(list(steps))
             elif name == "qnl":
-                s.quantise_note_lengths([[24, 12, 6], [a], [4, 8, 36]][r % 3], do_not_extend=flag)
+                base = util.get_note_durations(2 ** (a % 3), 2 ** (b % 3))
+                vals = [[24, 12, 6], [a], [4, 8, 36], base, base + util.get_tuplet_durations(base, 3, 2),
+                        base + util.get_dotted_note_durations(base, 1 + a % 2)][r % 6]
+                if not _grid_ok(out, vals, where):
+                    return out
+                s.quantise_note_lengths(list(vals), do_not_extend=flag)
             elif name == "qan":
                 for x in pool:
                     x.quantise_and_normalise()
@@ -185,7 +205,8 @@ def check(case):
                 pool = new_pool
             elif name == "tokenise":
                 tok = Tokeniser(num_tracks=len(pool), velocity_bins=[1, 2, 8, 15][a % 4], flag_fuse_value=flag,
-                                flag_fuse_velocity=bool(a % 2), flag_fuse_track=bool(b % 2), pitch_range=(21, 108))
+                                flag_fuse_velocity=bool(a % 2), flag_fuse_track=bool(b % 2), pitch_range=(21, 108),
+                                step_sizes=None if r % 3 else util.get_default_step_sizes(a % 2, 1 + b % 2))
                 srcs = [x.copy() for x in pool]
                 for x in srcs:
                     x.quantise_and_normalise()
